@@ -311,7 +311,6 @@ func prefixBody(c *mc.Ctx) {
 	c.Nontrivial(fmt.Sprint(g, chunk))
 }
 
-
 // routerBody: the source runner's real router (operatorCluster.routeEvent over real batching
 // operators, recording operators behind them) must hand a key to the operator whose key-group
 // range - as the operators themselves compute it at deploy (KeySpace.KeyGroupRanges) and as the
@@ -361,7 +360,6 @@ func routerBody(c *mc.Ctx) {
 		c.Nontrivial(fmt.Sprint("route", g, n))
 	}
 }
-
 
 // refOwner: ranges of size floor(g/n), the first g mod n ranges one larger (the harness's own
 // arithmetic for "sizes differ by at most one, larger ranges first").
